@@ -49,6 +49,23 @@ class C08:
             stmts.append("cons %d %d" % (fid + 1, fid))
             stmts.append("cons %d %d" % (fid + 2, wid))
             pairs.append(dict(fb=fid + 1, prod=fid + 2, init=init, shape=shape))
+        if random.Random(rng.getrandbits(32)).random() < 0.35:
+            # the port written into the feedback is a reference-shaped selection between two set / dictionary writers: on a retarget
+            # the tick it writes is the difference between the old and the new target (additions AND removals)
+            shape = rng.choice(("TSS", "TSD"))
+            writers = []
+            for wid in (1, 2):
+                w = coll.gen_writer(rng, wid, shape, end)
+                for off in w["script"]:
+                    w["script"][off] = [o for o in w["script"][off] if o[0] != "inv"] or [["d", coll.jd(coll.gen_delta(coll.SHAPES[shape], coll.fresh(coll.SHAPES[shape]), rng))]]
+                # both targets hold a value from the first cycle on (a retarget to a target without a value is C13's business)
+                w["script"][0] = [["d", coll.jd(coll.gen_delta(coll.SHAPES[shape], coll.fresh(coll.SHAPES[shape]), rng))]] + [o for o in w["script"].get(0, [])]
+                writers.append(w)
+            sel = ho.gen_ts_writer(rng, 3, end, values=[True, False], shape="TSBool", dense=rng.random() < 0.5)
+            sel["script"] = {t: ops for t, ops in sel["script"].items() if int(t) >= 1} or {1: [["d", "true"]]}
+            writers.append(sel)
+            stmts = ["ite 5 c=3 a=1 b=2", "fbk 50 src=5", "cons 51 50", "cons 52 5"]
+            return dict(kind="coll", sc=dict(window=(0, end), writers=writers, stmts=stmts), pairs=[dict(fb=51, prod=52, init=None, shape=shape, via_ref=1)])
         return dict(kind="coll", sc=dict(window=(0, end), writers=writers, stmts=stmts), pairs=pairs)
 
     def run_coll(self, case, fresh):
@@ -74,7 +91,10 @@ class C08:
         deliveries = 0
         wids = {w["id"] for w in sc["writers"]}
         for p in case["pairs"]:
-            if (p["prod"] - 2) // 10 not in wids:
+            if p.get("via_ref"):
+                if not {1, 2, 3} <= wids:
+                    continue
+            elif (p["prod"] - 2) // 10 not in wids:
                 continue
             shape = coll.SHAPES[p["shape"]]
             W = C.get(p["prod"], [])
